@@ -80,4 +80,88 @@ Definition ngap_fields : list (string * string * ty * params) :=
 Definition unsupported_fields : list (string * string) :=
   flat_map (fun x => let '(tn, fn, t, p) := x in if supported_one t p then [] else [(tn, fn)]) ngap_fields.
 
-Definition ngap_unsupported := Eval vm_compute in unsupported_fields.
+
+(* the explicit, finite list of NGAP constraints outside the supported classes *)
+Definition ngap_exceptions : list (string * string) :=
+  [("UEAssociatedLogicalNGConnectionList", "List");          (* SIZE(1..65536): count written as one octet (D5) *)
+   ("DRBStatusUL18", "ReceiveStatusOfULPDCPSDUs");           (* BIT STRING (SIZE(1..131072)) (D5) *)
+   ("PrivateIEID", "Global");                                (* OBJECT IDENTIFIER: unsupported by the library *)
+   ("PrivateMessageIEs", "Id")]%string.                      (* CHOICE without valueUB: PrivateMessage cannot be encoded *)
+
+Lemma ngap_unsupported_is : unsupported_fields = ngap_exceptions.
+Proof. vm_compute. reflexivity. Qed.
+
+Lemma unsupported_complete (l : list (string * string * ty * params)) tn fn t p :
+  In (tn, fn, t, p) l -> supported_one t p = false ->
+  In (tn, fn) (flat_map (fun x => let '(tn, fn, t, p) := x in if supported_one t p then [] else [(tn, fn)]) l).
+Proof.
+  intros Hin Hs. apply in_flat_map. exists (tn, fn, t, p). split; [exact Hin|]. rewrite Hs. left. reflexivity.
+Qed.
+
+(* every constraint occurring in NGAP is in a supported class, except the listed instances *)
+Theorem ngap_schema_supported tn fn t p :
+  In (tn, fn, t, p) ngap_fields -> supported_one t p = true \/ In (tn, fn) ngap_exceptions.
+Proof.
+  intros Hin. destruct (supported_one t p) eqn:E; [left; reflexivity|right].
+  rewrite <- ngap_unsupported_is. unfold unsupported_fields. apply (unsupported_complete _ _ _ t p); assumption.
+Qed.
+
+(* ---- the regenerated schema against the frozen TS 38.413 transcription (Spec/NgapGolden.v) *)
+Require Import NgapGolden.
+Open Scope N_scope.
+
+Definition optz_eqb (a b : option Z) : bool :=
+  match a, b with Some x, Some y => (x =? y)%Z | None, None => true | _, _ => false end.
+Definition params_eqb (a b : params) : bool :=
+  Bool.eqb (p_optional a) (p_optional b) && Bool.eqb (p_sizeExt a) (p_sizeExt b) && Bool.eqb (p_valueExt a) (p_valueExt b)
+  && Bool.eqb (p_openType a) (p_openType b) && optz_eqb (p_sizeLB a) (p_sizeLB b) && optz_eqb (p_sizeUB a) (p_sizeUB b)
+  && optz_eqb (p_valueLB a) (p_valueLB b) && optz_eqb (p_valueUB a) (p_valueUB b) && optz_eqb (p_refValue a) (p_refValue b)
+  && String.eqb (p_refName a) (p_refName b).
+
+Fixpoint ty_eqb (a b : ty) : bool :=
+  match a, b with
+  | TInt, TInt | TEnum, TEnum | TBool, TBool | TBits, TBits | TOctets, TOctets | TString, TString | TOid, TOid => true
+  | TSlice x, TSlice y | TPtr x, TPtr y => ty_eqb x y
+  | TStruct fa, TStruct fb =>
+      (fix go (fa fb : list (string * params * ty)) : bool :=
+         match fa, fb with
+         | [], [] => true
+         | (na, pa, ta) :: ra, (nb, pb, tb) :: rb => String.eqb na nb && params_eqb pa pb && ty_eqb ta tb && go ra rb
+         | _, _ => false
+         end) fa fb
+  | _, _ => false
+  end.
+
+Fixpoint types_diff (a b : list (string * ty * N)) {struct a} : list string :=
+  match a with
+  | [] => map (fun r => fst (fst r)) b
+  | (na, ta, _) :: ra =>
+      match b with
+      | [] => na :: types_diff ra []
+      | (nb, tb, _) :: rb => (if String.eqb na nb && ty_eqb ta tb then [] else [na]) ++ types_diff ra rb
+      end
+  end.
+Definition schema_diff : list string := types_diff ngap_types golden_types.
+
+Fixpoint roots_eqb (a b : list (string * ty * params * params)) : bool :=
+  match a, b with
+  | [], [] => true
+  | (na, _, pa, qa) :: ra, (nb, _, pb, qb) :: rb => String.eqb na nb && params_eqb pa pb && params_eqb qa qb && roots_eqb ra rb
+  | _, _ => false
+  end.
+
+(* no type differs (before fix a2bb2cf: the 15 types containing AssociatedQosFlowItem, whose ENUMERATED field had no bounds) *)
+Definition golden_exceptions : list string := [].
+Lemma schema_is_golden : schema_diff = golden_exceptions /\ roots_eqb ngap_roots_full golden_roots_full = true.
+Proof. split; vm_compute; reflexivity. Qed.
+
+(* ---- Go sizes used by the allocation accounting *)
+Lemma ngap_sizes_ok : forallb (fun r => let '(_, t, sz) := r in go_sizeof t =? sz) ngap_types = true.
+Proof. vm_compute. reflexivity. Qed.
+Lemma ngap_slice_elems_ok : forallb (fun r => let '(t, sz) := r in go_sizeof t =? sz) ngap_slice_elems = true.
+Proof. vm_compute. reflexivity. Qed.
+
+(* nesting depth of every root: the fuel the models need *)
+Definition max_root_depth : nat := Eval vm_compute in fold_right (fun r m => let '(_, t, _, _) := r in Nat.max (ty_depth t) m) O ngap_roots_full.
+Lemma root_depth_bound : forallb (fun r => let '(_, t, _, _) := r in Nat.leb (ty_depth t) max_root_depth) ngap_roots_full = true.
+Proof. vm_compute. reflexivity. Qed.
